@@ -50,6 +50,42 @@ theorem defaults_pass_check :
   · decide
   · decide +kernel
 
+/-! ### every parameter field is policed by the check, or listed here
+
+Round 6 found a field the check never looked at (`roughLegalization.sideMargin`, fix 07db192): a negative value put cells
+outside the rows, a huge one overflowed an `int`.  The fields that `check()` does not constrain are now part of the
+specification, and the translated check must refuse an absurd value of every other field. -/
+
+/-- The parameter fields no `check()` constrains — written by hand: two enums and a flag (every value of the C++ type is
+meaningful), the seed, `coarseningLimit` (only scales a distance threshold in `DensityLegalizer::runCoarsening`: any value,
+negative included, leaves the grid fully coarsened and then fully refined) and `orderingHeight` (known finding KF-C11-2). -/
+def unpolicedFields : List String :=
+  ["global.continuousModel.netModel", "global.roughLegalization.costModel",
+   "global.roughLegalization.unidimensionalTransport", "global.roughLegalization.coarseningLimit",
+   "legalization.orderingHeight", "seed"]
+
+/-- the effort-3 defaults with field `i` replaced by `v` are refused by `ColoquinteParameters::check()` -/
+def refusedWith (i : Nat) (v : Rat) : Bool :=
+  match Params.defaults.find? (fun e => e.1 == 3) with
+  | some e => !(Params.ColoquinteParameters.ofList (e.2.toList.set i v)).check
+  | none => false
+
+/-- **Every field of `ColoquinteParameters` is policed or listed**: for each of the translated fields, either it is one
+of the six `unpolicedFields`, or the translated `check()` refuses the effort-3 defaults with that single field set to
+−10⁹ or to 10⁹.  A field added without a check, or a check that is removed (as `sideMargin`'s was missing), breaks this. -/
+theorem every_parameter_field_policed_or_listed :
+    ∀ i ∈ List.range Params.fieldNames.length,
+      (Params.fieldNames.getD i "" ∈ unpolicedFields) ∨ refusedWith i (-1000000000) = true ∨ refusedWith i 1000000000 = true := by
+  decide +kernel
+
+/-- … and the list is tight: none of the six listed fields is refused at either extreme (so the list does not hide a
+policed field), and the unmodified defaults are accepted (so a refusal is due to the one field). -/
+theorem unpoliced_fields_are_unpoliced :
+    (∀ i ∈ List.range Params.fieldNames.length, Params.fieldNames.getD i "" ∈ unpolicedFields →
+      refusedWith i (-1000000000) = false ∧ refusedWith i 1000000000 = false) ∧
+    refusedWith Params.fieldNames.length 0 = false ∧ unpolicedFields.all (· ∈ Params.fieldNames) = true := by
+  decide +kernel
+
 /-! ### rejected parameters: nothing happens before `params.check()` -/
 
 /-- Members that are reset at the start of every placement call and have no getter; writing them is
